@@ -57,6 +57,36 @@ def addDigest (secs frac : Int) : String :=
     mixTC (mixTC h (M.Time.overflowing_add_signed t d)) (M.Time.overflowing_sub_signed t d)) (1, 1)
   s!"{h.1} {h.2}"
 
+/-- (audit2 L3) the operand-relative boundaries of `boundaryDeltas` — reach :60.0 / :61.0, the start of the second,
+the previous second, each ±1 ns — combined with ±1 and ±2 WHOLE DAYS (the list above has them with zero whole days
+only).  Same order as `day_boundary_ns` in harness/src/props/c07.rs: k outermost, then the boundary, then −1/0/+1 ns. -/
+def dayBoundaryDeltas (frac : Int) : List M.Delta :=
+  [-2, -1, 1, 2].flatMap fun k => [1, 2, 0, -1].flatMap fun b => [-1, 0, 1].map fun e =>
+    dn (k * 86400 + b) (-frac + e)
+
+def addkDigest (secs frac : Int) : String :=
+  let t : M.Time := ⟨secs, frac⟩
+  let h := (dayBoundaryDeltas frac).foldl (fun h d =>
+    mixTC (mixTC h (M.Time.overflowing_add_signed t d)) (M.Time.overflowing_sub_signed t d)) (1, 1)
+  s!"{h.1} {h.2}"
+
+/-- (audit2 M2) the fixed list of `core::time::Duration` seconds run on EVERY second of the day with a leap-second
+operand: k days and k days ± 1 s for k = 1, 2, 3, 1000 (the pinned defect reduced modulo two days), `u64::MAX`,
+`i64::MAX as u64 + 1`.  Same order as `STD_SECS` in harness/src/props/c07.rs. -/
+def stdSecs : List Int :=
+  [86399, 86400, 86401, 172799, 172800, 172801, 259199, 259200, 259201, 86399999, 86400000, 86400001,
+   18446744073709551615, 9223372036854775808]
+
+def mixT (h : Nat × Nat) (r : Res M.Time) : Nat × Nat :=
+  mixTC h (match r with | .panic => .panic | .ok t => .ok (t, 0))
+
+/-- digest of `impl Add<Duration>` and `impl Sub<Duration>` over `stdSecs` with the given nanosecond part -/
+def stdDigest (secs frac nanos : Int) : String :=
+  let t : M.Time := ⟨secs, frac⟩
+  let h := stdSecs.foldl (fun h ds =>
+    mixT (mixT h (M.Time.add_std t ds nanos)) (M.Time.sub_std t ds nanos)) (1, 1)
+  s!"{h.1} {h.2}"
+
 def showODT : Option (Int × M.Time) → String
   | some (d, t) => s!"{d} {t.secs} {t.frac}"
   | none => "none"
@@ -95,6 +125,10 @@ def handle (op : String) (args : List String) : Option String :=
       | some [s, f, ds, dn] => showRes showTC (M.Time.overflowing_sub_signed ⟨s, f⟩ ⟨ds, dn⟩) | _ => bad)
   | "tm.addb", [s, f] => some (match ints? [s, f] with
       | some [s, f] => addDigest s f | _ => bad)
+  | "tm.addk", [s, f] => some (match ints? [s, f] with
+      | some [s, f] => addkDigest s f | _ => bad)
+  | "tm.stdb", [s, f, n] => some (match ints? [s, f, n] with
+      | some [s, f, n] => stdDigest s f n | _ => bad)
   | "tm.diff", [s1, f1, s2, f2] => some (match ints? [s1, f1, s2, f2] with
       | some [s1, f1, s2, f2] => showRes showD (M.Time.signed_duration_since ⟨s1, f1⟩ ⟨s2, f2⟩) | _ => bad)
   | "tm.cmp", [s1, f1, s2, f2] => some (match ints? [s1, f1, s2, f2] with
